@@ -684,6 +684,22 @@ func (e *exec) do(ws []string) string {
 		}
 		dst.plant(blob.RefFromBytes(c).String(), c)
 		return "ok"
+	case "fault":
+		if len(ws) != 3 || !(ws[1] == "E" || ws[1] == "M") || !allDigits(ws[2]) {
+			return "bad-op"
+		}
+		k, err := strconv.Atoi(ws[2])
+		if err != nil {
+			return "bad-op"
+		}
+		st := e.w.blobs
+		if ws[1] == "M" {
+			st = e.w.meta
+		}
+		st.mu.Lock()
+		st.failAt = k
+		st.mu.Unlock()
+		return "ok"
 	case "snap":
 		if len(ws) != 1 {
 			return "bad-op"
